@@ -77,13 +77,14 @@ class Model:
         self.locked = False
         self.n = 0
         self.maybe_infeasible = False
+        self.reserved = set()         # names that dilute steps will give: taken, like declared ones
         self.infeasible = False       # a step that can never be carried out (500 mL out of a 100 mL stock) has been declared
         self.diluted = False
         self.filled = False
         self.partial = False
 
     def key(self):
-        return (frozenset(self.decl), frozenset(self.used), self.open, frozenset(self.stages), self.locked)
+        return (frozenset(self.decl), frozenset(self.used), self.open, frozenset(self.stages), self.locked, frozenset(self.reserved))
 
     def step(self, sym):
         """-> 'ok' | 'raise' | 'runtime' | 'bake?' """
@@ -115,7 +116,7 @@ class Model:
             return 'runtime'
         if sym in ('usesL_BP', 'usesL_dup', 'usesT_A'):
             names = {'usesL_BP': ['B', 'P'], 'usesL_dup': ['D', 'D'], 'usesT_A': ['A']}[sym]
-            clash = [n for n in names if n in self.decl] or (['D'] if sym == 'usesL_dup' else [])
+            clash = [n for n in names if n in self.decl or n in self.reserved] or (['D'] if sym == 'usesL_dup' else [])
             if clash:
                 return 'raise'          # refused: nothing is declared (not even the elements before the clash)
             self.decl.update(names)
@@ -126,7 +127,7 @@ class Model:
                 return 'raise'
             if sym in ('csSolvX', 'csfX'):
                 return 'raise'
-            if nm in self.decl:
+            if nm in self.decl or nm in self.reserved:
                 return 'raise'
             self.decl.add(nm)
             if not sym.startswith('uses'):
@@ -152,6 +153,8 @@ class Model:
             self.maybe_infeasible = True
         if sym in ('dilA', 'dilA_B'):
             self.diluted = True
+        if sym == 'dilA_B':
+            self.reserved.add('B')
         if sym == 'tBig':
             if self.diluted:
                 self.maybe_infeasible = True      # diluted to 0.01 M the stock holds litres
